@@ -46,6 +46,7 @@ var managedRequestHeaders = map[string]bool{
 var managedHeaderConfig = map[string]bool{"RequestID": true, "ClientIPHeader": true, "TLSHeader": true}
 
 func runC07(c *Ctx) {
+	c07lastURL = nil
 	serve := c.method("proxy", "HTTPProxy", "ServeHTTP")
 	if !c.need("C07.G1", serve, "proxy.HTTPProxy.ServeHTTP") {
 		return
@@ -419,9 +420,16 @@ func c07hostOptSet(ft Fact, isHostOpt func(ssa.Value) bool) bool {
 	return true
 }
 
+// c07lastURL: the upstream URL (alias set) found by runC07U for the program being checked; nil when it was not found.
+var c07lastURL *c07url
+
 // runC07U: U1, U2 and Q1 on the URL the Director copies into the outgoing request.
 func runC07U(c *Ctx, serve *ssa.Function, directors []*ssa.Function) {
+	c07lastURL = nil
 	u, ok := newC07url(c, serve, directors)
+	if ok {
+		c07lastURL = u // the rules of c07_round4.go (U3) work on the same alias set
+	}
 	if !ok {
 		c.undecided("C07.U1", "anchor|upstream URL", "no Director copies a URL's Path into the outgoing request and no URL is installed in the request: the URL sent upstream was not found")
 		return
